@@ -22,10 +22,12 @@ META = {
         "ptera.transform.ExternalVariableCollector.*", "ptera.transform.transform (info table)", "ptera.selector.Call.problems/verify",
         "ptera.overlay.autotool/_tooler/fits_selector", "ptera.probe.Probe._enter/_install_tooling",
     ],
-    "bounds": {"quick": {"slots": "slot 1: 26 forms x 3 names; slot 2: 10 forms x 2 names; optional extra read", "probed_identifiers": 8},
-               "thorough": {"slots": "2 free slots x 27 forms x 3 names + optional extra read of any name", "probed_identifiers": 8}},
+    "bounds": {"quick": {"slots": "slot 1: 33 forms x 3 names; slot 2: 10 forms x 2 names; optional extra read", "probed_identifiers": 8},
+               "thorough": {"slots": "2 free slots x 34 forms x 3 names + optional extra read of any name", "probed_identifiers": 8}},
     "out_of_scope": ["names that occur only inside nested scopes of f (lambda parameters, comprehension variables, locals of nested "
                      "functions): Python does not report them for f and they are not fresh either -- not asserted",
+                     "a name that is the iteration variable of a list/set/dict comprehension in f whenever CPython's symtable gives a "
+                     "different verdict for the inlined (PEP 709) and the generator-expression form of the same program",
                      "programs outside the slot grammar"],
     "assumptions": ["nothing arithmetic is decided: the solver enumerates the finite choice vector and certifies exhaustion; "
                     "program text is concrete once chosen (registered in linecache)"],
@@ -44,6 +46,9 @@ FORMS = [
     ("stmt", "try:\n    pass\nexcept Exception:\n    {N} = 1"), ("stmt", "try:\n    pass\nfinally:\n    {N} = 1"),
     ("stmt", "while False:\n    {N} = 1\nelse:\n    pass"), ("stmt", "with _cm():\n    {N} = 1"),
     ("stmt", "import xml.dom"),
+    # bindings that belong to a scope nested in f, not to f
+    ("stmt", "def _g({N}):\n    pass"), ("stmt", "_m = lambda {N}: 0"), ("stmt", "def _g():\n    {N} = 1"),
+    ("stmt", "class _K:\n    {N} = 1"), ("stmt", "_w = [({N} := 1) for _i in ()]"), ("stmt", "_s = {{N}: 0 for {N} in ()}"),
 ]
 PROBED = NAMES + ["zz", "xml", "#value", "#val", "#exit2"]
 
@@ -85,8 +90,37 @@ def gen(slots, reader):
     return "\n".join(lines) + "\n"
 
 
+def _uninlined(src):
+    """The same program with every list/set/dict comprehension written as a generator expression: same scoping by
+    the language definition, but CPython >= 3.12 does not inline generator expressions, so symtable shows the scopes the
+    language defines instead of the hidden locals PEP 709 inlining adds to the enclosing function."""
+    import ast
+
+    class T(ast.NodeTransformer):
+        def visit_ListComp(self, node):
+            self.generic_visit(node)
+            return ast.GeneratorExp(elt=node.elt, generators=node.generators)
+
+        visit_SetComp = visit_ListComp
+
+        def visit_DictComp(self, node):
+            self.generic_visit(node)
+            return ast.GeneratorExp(elt=ast.Tuple(elts=[node.key, node.value], ctx=ast.Load()), generators=node.generators)
+
+    return ast.unparse(ast.fix_missing_locations(T().visit(ast.parse(src))))
+
+
 def oracle(src, name):
-    """Python's verdict: None if `name` is not a name of f's own scope, else the provenance."""
+    """Python's verdict: None if `name` is not a name of f's own scope, else the provenance; 'unasserted' when the
+    verdict depends on comprehension inlining (the iteration variable of an inlined comprehension is a hidden local of f
+    for symtable -- and, on CPython 3.12.1, even for a nested function reading the same name -- but not for the language)."""
+    raw = _oracle(src, name)
+    if "for " + name + " in ()" not in src:
+        return raw
+    return raw if _oracle(_uninlined(src), name) == raw else "unasserted"
+
+
+def _oracle(src, name):
     import symtable
 
     top = symtable.symtable(src, "<c10>", "exec")
@@ -231,6 +265,8 @@ def build(case):
         require(followup is None or followup[1] == "activated",
                 f"after `f > {probed}` was refused, the valid `f > {followup and followup[0]}` is refused too on the same function: "
                 f"{followup and followup[1]}", {"fp": f"C10:refusal-sticky:{followup and followup[1]}"})
+        if want == "unasserted":
+            return
         if probed.startswith("#"):
             if probed == "#value":
                 require(res == "activated", f"the documented meta-variable #value was refused: {res}", {"fp": "C10:hashvar:valid-refused"})
